@@ -735,6 +735,26 @@ mod child {
 
     // ---- loopback mock (valid BPSV over HTTP for every request) ------------------------------
 
+    /// requests the HTTP mock has answered so far (a repeated request that leaves it unchanged was answered by a cache)
+    static MOCK_REQUESTS: std::sync::atomic::AtomicU64 = std::sync::atomic::AtomicU64::new(0);
+    fn mock_requests() -> u64 {
+        MOCK_REQUESTS.load(std::sync::atomic::Ordering::SeqCst)
+    }
+
+    /// The request of window `m` once more ("…/same-request-again"): the client caches what it downloads, so the second
+    /// request of an object takes the client's cache-answer path. Counts repeats and those that succeeded without a
+    /// request reaching the mock.
+    fn again(c: &mut Child, m: &Meta, tally: &mut (u64, u64), f: impl FnOnce() -> O) {
+        let mut m2 = m.clone();
+        m2.variant = format!("{}/same-request-again", m.variant);
+        let before = mock_requests();
+        let (outcome, _) = c.window(&m2, f);
+        tally.0 += 1;
+        if outcome == "ok" && mock_requests() == before {
+            tally.1 += 1;
+        }
+    }
+
     fn start_mock() -> u16 {
         let l = std::net::TcpListener::bind("127.0.0.1:0").expect("bind mock");
         let port = l.local_addr().expect("addr").port();
@@ -769,6 +789,7 @@ mod child {
             // never have the same bytes (used by the CDN injectivity histories)
             let req_path = String::from_utf8_lossy(&buf[..end]).split_whitespace().nth(1).unwrap_or("").to_string();
             buf.drain(..end);
+            MOCK_REQUESTS.fetch_add(1, std::sync::atomic::Ordering::SeqCst);
             let cdn_body = format!("CDN-OBJECT {req_path}\n");
             let body = if req_path.starts_with("/inj/") { cdn_body.as_bytes() } else { BPSV_DOC.as_bytes() };
             let mut resp = format!("HTTP/1.1 200 OK\r\nContent-Type: text/plain\r\nContent-Length: {}\r\nConnection: keep-alive\r\n\r\n", body.len()).into_bytes();
@@ -884,7 +905,10 @@ mod child {
                 c.emit(&rec);
             }
         }
-        // content keys of every length 0..=32 (and a few longer ones)
+        // content keys of every length 0..=32 (and a few longer ones). Every request that the client caches (download,
+        // download_archive_index) is made a second time, here and for the hostile paths / archive keys below: a client
+        // asks for the same object again, and then the cache-answer branch runs with the same strings
+        let mut repeats = (0u64, 0u64);
         let rounds = c.pick(1, 12);
         for round in 0..rounds {
             for len in (0..=32usize).chain([33, 64, 255]) {
@@ -895,6 +919,7 @@ mod child {
                 m.class = format!("key-len-{}", if len < 2 { len.to_string() } else { "ge2".into() });
                 m.nt = len < 2;
                 c.window(&m, || O::from(bo(cdn.download(&good, ct, &key)), |d| format!("bytes={}", d.len())));
+                again(c, &m, &mut repeats, || O::from(bo(cdn.download(&good, ct, &key)), |d| format!("bytes={}", d.len())));
                 let (off, l) = *rng.pick(&[(0u64, 1u64), (0, 0), (7, 0), (100, 50), (0, u64::MAX), (u64::MAX, 1), (u64::MAX, 2), (u64::MAX - 1, 1), (1 << 40, 1 << 20)]);
                 let mut m2 = m.api("CdnClient::download_range");
                 m2.strings = vec![label.clone(), format!("offset={off}"), format!("length={l}")];
@@ -929,6 +954,7 @@ mod child {
             let mut m = Meta::new("CdnClient::download", v, &root, &h.s);
             m.variant = format!("{v}/endpoint.path");
             c.window(&m, || O::from(bo(cdn.download(&ep, ct, &key)), |d| format!("bytes={}", d.len())));
+            again(c, &m, &mut repeats, || O::from(bo(cdn.download(&ep, ct, &key)), |d| format!("bytes={}", d.len())));
             if i % 3 == 0 {
                 c.window(&m.api("CdnClient::download_range"), || O::from(bo(cdn.download_range(&ep, ct, &key, 0, 16)), |d| format!("bytes={}", d.len())));
             }
@@ -950,6 +976,7 @@ mod child {
                 m.nt = true;
             }
             c.window(&m, || O::from(bo(cdn.download_archive_index(&good, ak)), |d| format!("bytes={}", d.len())));
+            again(c, &m, &mut repeats, || O::from(bo(cdn.download_archive_index(&good, ak)), |d| format!("bytes={}", d.len())));
             if ak.len() < 6 {
                 c.window(&m.api("CdnClient::get_index_size"), || O::from(bo(cdn.get_index_size(&good, ak)), |d| format!("{d:?}")));
             }
@@ -1014,6 +1041,9 @@ mod child {
                 let mut m2 = m.api("CdnClient::download");
                 m2.variant = format!("{v}/endpoint-from-cdns-row.{what}");
                 c.window(&m2, || O::from(bo(cdn.download(&ep, ct, &key)), |d| format!("bytes={}", d.len())));
+                if i % 2 == 0 {
+                    again(c, &m2, &mut repeats, || O::from(bo(cdn.download(&ep, ct, &key)), |d| format!("bytes={}", d.len())));
+                }
                 if i % 4 == 0 {
                     let ak = hex::encode(&key);
                     c.window(&m2.api("CdnClient::download_archive_index"), || O::from(bo(cdn.download_archive_index(&ep, &ak)), |d| format!("bytes={}", d.len())));
@@ -1034,6 +1064,8 @@ mod child {
             c.window(&m, || O::from(bo(cdn.download(&ep, ContentType::Config, &key)), |d| format!("bytes={}", d.len())));
             c.window(&m.api("CdnClient::download_range"), || O::from(bo(cdn.download_range(&ep, ContentType::Config, &key, 0, 4)), |d| format!("bytes={}", d.len())));
         }
+        let rec = json!({"t":"cdn-repeat","repeats":repeats.0,"answered_without_a_request_to_the_server":repeats.1});
+        c.emit(&rec);
     }
 
     // ---- cascette_client_storage ------------------------------------------------------------
@@ -1426,6 +1458,27 @@ mod child {
                 v.push((k, kid));
             }
         }
+        // cross-field coincidences: so far the three fields were drawn independently, so a field's value hardly ever
+        // occurred inside another field. Real keys do that all the time (the product-scoped endpoints name their product;
+        // a region, product or endpoint segment may be the same short word). For every base: endpoints that contain the
+        // product and / or the region as a whole path segment (or consist of it), each with no product, that product, a
+        // product that extends it, the region as product, and the product as region. Every value is a well-formed name.
+        for b in 0..bases {
+            let p = if b % 2 == 0 { (*rng.pick(PRODUCTS)).to_string() } else { ident(&mut rng, LOWER, 2, 8) };
+            let r = (*rng.pick(REGIONS)).to_string();
+            let longer = format!("{p}{}", rng.pick(&["t", "_classic", "2"]));
+            let leaf = *rng.pick(&["versions", "cdns", "bgdl"]);
+            for e in [format!("products/{p}/{leaf}"), format!("v1/products/{p}/{leaf}"), format!("{p}/{leaf}"), p.clone(), format!("{r}/{p}"), format!("products/{r}/{leaf}"), r.clone(), format!("products/{longer}/{leaf}")] {
+                for (r, p) in [(&r, None), (&r, Some(&p)), (&r, Some(&longer)), (&r, Some(&r)), (&p, None), (&p, Some(&p))] {
+                    let kid = format!("endpoint={e},region={r},product={:?}", p.map(String::as_str));
+                    let k = match p {
+                        Some(p) => RibbitKey::with_product(e.clone(), r.clone(), p.clone()),
+                        None => RibbitKey::new(e.clone(), r.clone()),
+                    };
+                    v.push((k, kid));
+                }
+            }
+        }
         inj(c, "RibbitKey", v);
 
         // a dense population of keys that share their last path component ("products/<p>/versions" for many products and
@@ -1454,6 +1507,16 @@ mod child {
             }
             let short = h[..16].to_string();
             v.push((ConfigKey::new("buildconfig", short.clone()), format!("type=buildconfig,hash={short}")));
+        }
+        // a type name that is itself a run of hex digits, also at the start / end of the hash or as the whole hash
+        for _ in 0..bases {
+            let h = hex32(&mut rng);
+            let w = (*rng.pick(&["cafe", "decade", "bead", "face", "added"])).to_string();
+            let starts = format!("{w}{}", &h[w.len()..]);
+            let ends = format!("{}{w}", &h[..32 - w.len()]);
+            for (t, hh) in [(w.as_str(), &h), (w.as_str(), &starts), (w.as_str(), &ends), (w.as_str(), &w), ("buildconfig", &starts), ("buildconfig", &ends), ("buildconfig", &w), (h.as_str(), &h), (h.as_str(), &w)] {
+                v.push((ConfigKey::new(t, hh.clone()), format!("type={t},hash={hh}")));
+            }
         }
         inj(c, "ConfigKey", v);
 
@@ -1504,7 +1567,8 @@ mod child {
             let a = (*rng.pick(ARCHIVES)).to_string();
             let a2 = (*rng.pick(ARCHIVES)).to_string();
             let ah = hex32(&mut rng);
-            for (a, h) in [(&a, &h), (&a2, &h), (&a, &h2), (&ah, &h), (&ah, &h2)] {
+            // (archives are named by hashes: the archive name may equal the index hash, or the two may be swapped)
+            for (a, h) in [(&a, &h), (&a2, &h), (&a, &h2), (&ah, &h), (&ah, &h2), (&h, &h), (&h, &h2), (&h2, &h), (&h, &ah), (&h2, &h2)] {
                 v.push((ArchiveIndexKey::new(a.clone(), h.clone()), format!("archive={a},hash={h}")));
             }
         }
@@ -1528,6 +1592,13 @@ mod child {
                 ("root", kb, Some(ver2.clone())),
                 ("encoding", kb, Some(ver.clone())),
                 ("root", kb2, Some(ver.clone())),
+                // a field's value inside another field: the version names a manifest type, or spells the content key
+                ("root", kb, Some("encoding".to_string())),
+                ("encoding", kb, Some("root".to_string())),
+                ("root", kb, Some("root".to_string())),
+                ("install", kb, Some(hex::encode(kb))),
+                ("install", kb2, Some(hex::encode(kb))),
+                ("install", kb, Some(hex::encode(kb2))),
             ] {
                 let ck = ContentKey::from_bytes(kb);
                 let kid = format!("type={t},ckey={},version={ver:?}", hex::encode(kb));
@@ -1548,6 +1619,23 @@ mod child {
             let off = rng.below(1 << 32);
             let len = rng.next_u32() >> 8;
             for (a, off, len) in [(&a, off, len), (&a2, off, len), (&a, off + 1, len), (&a, off, len + 1), (&a, 0, 0), (&a, 1, 0), (&a, 0, 1), (&a, 12, 3), (&a, 1, 23)] {
+                v.push((ArchiveRangeKey::new(a.clone(), off, len), format!("archive={a},offset={off},length={len}")));
+            }
+        }
+        // archive names made of digits (hash-named archives can be) next to the numeric fields: the same digits split
+        // differently over archive / offset / length
+        for _ in 0..bases {
+            let d: Vec<u64> = (0..4).map(|_| rng.range(1, 9)).collect();
+            let cat = |x: &[u64]| x.iter().map(u64::to_string).collect::<String>();
+            for (a, off, len) in [
+                (cat(&d[..1]), cat(&d[1..3]).parse::<u64>().unwrap_or(0), d[3]),
+                (cat(&d[..2]), d[2], d[3]),
+                (cat(&d[..1]), d[1], cat(&d[2..4]).parse::<u64>().unwrap_or(0)),
+                (cat(&d[..3]), d[3], 0),
+                (cat(&d[..3]), 0, d[3]),
+                (cat(&d[..4]), 0, 0),
+            ] {
+                let len = len as u32;
                 v.push((ArchiveRangeKey::new(a.clone(), off, len), format!("archive={a},offset={off},length={len}")));
             }
         }
@@ -2172,6 +2260,10 @@ mod parent {
                 Some("pure") => pures.push(v.clone()),
                 Some("readback") => readbacks.push(v.clone()),
                 Some("cdn-inj") => cdn_inj.push(v.clone()),
+                Some("cdn-repeat") => {
+                    ctx.obs("cdn.requests_made_a_second_time", v.get("repeats").and_then(Value::as_u64).unwrap_or(0));
+                    ctx.obs("cdn.second_requests_answered_without_a_request_to_the_server", v.get("answered_without_a_request_to_the_server").and_then(Value::as_u64).unwrap_or(0));
+                }
                 Some("call") => {
                     let n = v.get("n").and_then(Value::as_u64).unwrap_or(0);
                     let rec = CallRec {
@@ -2378,7 +2470,8 @@ mod parent {
                 let lex = lex_norm(base, &u.path);
                 ctx.obs("strace.paths_checked", 1);
                 // glibc's NSS layer stats "/" when a host name is resolved (hostile `host` strings only)
-                let resolver_root_probe = lex == b"/" && u.class == Sc::Stat && (rec.variant.ends_with("endpoint.host") || rec.variant.ends_with("cdns-row.Hosts"));
+                let site = rec.variant.strip_suffix("/same-request-again").unwrap_or(&rec.variant);
+                let resolver_root_probe = lex == b"/" && u.class == Sc::Stat && (site.ends_with("endpoint.host") || site.ends_with("cdns-row.Hosts"));
                 if resolver_root_probe || system_allowed(&lex, &extra_allowed) {
                     ctx.obs("strace.paths_runtime_allowlist", 1);
                     continue;
@@ -2628,6 +2721,10 @@ mod parent {
         }
         if ctx.get_obs("strace.paths_inside_root") < 100 {
             ctx.inconclusive("fewer than 100 path arguments inside configured roots were observed");
+        }
+        // the repeated CDN requests are only worth something if the client's cache answered (some of) them
+        if ctx.get_obs("cdn.second_requests_answered_without_a_request_to_the_server") < 20 {
+            ctx.inconclusive("fewer than 20 repeated CDN requests were answered without a request reaching the mock server — the cache-answer path of the client was not exercised");
         }
         // the maintenance calls are only worth something if they were seen deleting files of their directory
         for api in [
